@@ -66,6 +66,14 @@ def faults(quick: bool):
                        "array-fixed-to-dynamic-rank": ("float[2,3]", "float[,]"), "array-rank-to-fixed": ("float[,]", "float[2,3]")}.items():
         out.append(("evolution:%s-field" % nm, ("files", {"main/model.yml": vecs % (repr(n), "int"), "v0/model.yml": vecs % (repr(o), "int")})))
         out.append(("evolution:%s-step" % nm, ("files", {"main/model.yml": vecs % ("int", repr(n)), "v0/model.yml": vecs % ("int", repr(o))})))
+    # a record of the package and a record of an imported package share their simple name; both are reached from changed protocol steps and the
+    # package's own record holds an enum that lost a value (a breaking change below a definition that is walked second)
+    same = C09.VALID_MAIN + "Mode: !enum\n  values: [idle, armed, running%s]\nHeader: !record\n  fields:\n    subject: string\n    mode: Mode\nSession: !protocol\n  sequence:\n    device: Lib.Header%s\n    header: Header\n"
+    for nm, lib_first in (("evolution:same-simple-name-in-import", True), ("evolution:same-simple-name-in-import-own-first", False)):
+        new, old = same % ("", "?"), same % (", calibrating", "")
+        if not lib_first:
+            new, old = [x.replace("    device: Lib.Header?\n    header: Header\n", "    header: Header\n    device: Lib.Header?\n").replace("    device: Lib.Header\n    header: Header\n", "    header: Header\n    device: Lib.Header\n") for x in (new, old)]
+        out.append((nm, ("files", {"main/model.yml": new, "v0/model.yml": old, "lib/lib.yml": C09.VALID_LIB + "Header: !record\n  fields:\n    serialNumber: string\n    gain: float\n"})))
     out.append(("evolution:missing-version-dir", ("manifest", "versions:\n  v0: ../v0\n  v1: ../nowhere\n")))
     out.append(("evolution:duplicate-label", ("manifest", "versions:\n  v0: ../v0\n  v0: ../v0\n")))
     out.append(("manifest:unknown-key", ("manifest_append", "bogus: 1\n")))
